@@ -12,6 +12,17 @@ democmd=$(cat "$src/demo_cmd.txt" 2>/dev/null | grep -E "go (test|run)" | head -
 demodir=$(grep -oE '\./[A-Za-z0-9_/.-]+' <<<"$democmd" | head -1)
 [ -z "$demodir" ] && demodir=.
 [ -n "$demo" ] && cp "$src/$demo" "$W/$demodir/"
+if [ -n "$SEEDCHECK_FAST" ]; then
+  # regression mode: only apply, build and run the checks
+  ( cd "$W" && git apply "$src/patch.diff" ) || { echo "SEED $name: patch does not apply"; exit 2; }
+  ( cd "$W" && go build ./... ) || { echo "SEED $name: does not build"; exit 2; }
+  for id in ${ids//,/ }; do
+    out=$(VERIF_REPO="$W" VERIF_OUT=/tmp/seedout-$name-$$ /verif/check "$id" --tier "$tier" 2>/tmp/seedout-$name-$$.err); rc=$?
+    echo "SEED $name check $id rc=$rc $(echo "$out" | head -1 | cut -c1-200)"
+  done
+  rm -f /tmp/seedout-$name-$$.*
+  exit 0
+fi
 ( cd "$W" && eval "$democmd" >/tmp/seedout-$name-$$.pre 2>&1 ); pre=$?
 ( cd "$W" && git apply "$src/patch.diff" ) || { echo "SEED $name: patch does not apply"; exit 2; }
 ( cd "$W" && go build ./... ) || { echo "SEED $name: does not build"; exit 2; }
